@@ -1772,13 +1772,6 @@ private:
             return;
         }
         int length = static_cast<int>(str.size());
-        // prettify_string adds the number of digits to the exponent and negates the result: both must stay in int
-        if (exponent > (std::numeric_limits<int>::max)() - length || exponent == (std::numeric_limits<int>::min)())
-        {
-            ec = cbor_errc::invalid_decimal_fraction;
-            more_ = false;
-            return;
-        }
         if (length > 0)
         {
             if (str[0] == '-')
